@@ -155,10 +155,26 @@ theorem strict_literal_exact_type (W : World) (m : DebugTrail) (n : Nat) (vals :
 
   Full-strength statement: `LeafNarrowing W → load W ⟨m,true⟩ n T d = .ok v →
   load W ⟨m,false⟩ n T d ≠ .diverge → ∃ v', load W ⟨m,false⟩ n T d = .ok v'`.
-  It is false: `LeafNarrowing` constrains the lax leaf only where the strict leaf *accepts*.
-  A world in which the lax `int` leaf crashes on `inf` (the real `int(float('inf'))` raises
-  `OverflowError`) while the strict one rejects it makes `Union[int, float]` accept `inf`
-  strictly and crash laxly. -/
+  It is false, for the code as it is, in two ways:
+  * independent of the leaves: `Union[Set[List[Any]], Any]` on `"ab"` — strictly the set case is
+    excluded (str) and `Any` wins; laxly the set loader iterates the string, loads `["a"]`,
+    `["b"]` and `set()` of lists raises `TypeError`, which the union does not catch (the real
+    library does exactly this for `Union[Set[List[str]], str]`);
+  * through the leaves: `LeafNarrowing` constrains the lax leaf only where the strict leaf
+    *accepts*. A world in which the lax `int` leaf crashes on `inf` (the real
+    `int(float('inf'))` raises `OverflowError`) while the strict one rejects it makes
+    `Union[int, float]` accept `inf` strictly and crash laxly. -/
+
+/-- a world without classes whose leaves accept everything -/
+def Wid : World :=
+  { classes := fun _ => none, scalarLoad := fun _ _ d => .ok d, scalarDump := fun _ d => .ok d }
+
+def Tsl : Ty := .union [.iter .set false (.iter .list true .any), .any] ["set", "object"]
+
+theorem sl_strict : ∀ m, load Wid ⟨m, true⟩ 4 Tsl (.str "ab") = .ok (.str "ab") := by
+  intro m; cases m <;> rfl
+theorem sl_lax_disable : load Wid ⟨.disable, false⟩ 4 Tsl (.str "ab") = .escape "TypeError" := by rfl
+theorem sl_lax_all : load Wid ⟨.all, false⟩ 4 Tsl (.str "ab") = .escape "ExceptionGroup" := by rfl
 
 def W₁ : World :=
   { classes := fun _ => none
@@ -187,6 +203,17 @@ def dinf : Val := .float (.inf false)
 
 theorem inf_strict : load W₁ ⟨.disable, true⟩ 2 Tif dinf = .ok dinf := by rfl
 theorem inf_lax : load W₁ ⟨.disable, false⟩ 2 Tif dinf = .escape "OverflowError" := by rfl
+
+theorem strict_sub_lax_accept_needs_no_escape' :
+    ¬ (∀ (W : World) (m : DebugTrail) (n : Nat) (T : Ty) (d v : Val),
+        LeafNarrowing W → WorldNodes W litNodeFlat → T.litFlat = true →
+        load W ⟨m, true⟩ n T d = .ok v → load W ⟨m, false⟩ n T d ≠ .diverge →
+        ∃ v', load W ⟨m, false⟩ n T d = .ok v') := by
+  intro h
+  obtain ⟨v', hv'⟩ := h Wid .disable 4 Tsl (.str "ab") (.str "ab") (fun _ _ _ h => h)
+    (fun _ _ h => by cases h) rfl (sl_strict .disable) (by rw [sl_lax_disable]; simp)
+  rw [sl_lax_disable] at hv'
+  cases hv'
 
 theorem strict_sub_lax_accept_needs_no_escape :
     ¬ (∀ (W : World) (m : DebugTrail) (n : Nat) (T : Ty) (d v : Val),
@@ -267,6 +294,18 @@ example : load W₀ ⟨.disable, false⟩ 2 (.literal [.int 1]) (.bool true) = .
   simp [load, loadLiteral, Val.memOf, Val.pyEq]
 example : load W₀ ⟨.disable, true⟩ 2 (.literal [.int 1]) (.int 1) = .ok (.int 1) := by
   simp [load, loadLiteral, boolSensitive, typedMem, Val.tag, Val.pyEq]
+
+/-- the side condition `litFlat` is an artefact of the model's value universe, not of the code:
+    `Val.dict` admits association lists with duplicate keys, on which `pyEq` (`==`) is not
+    symmetric; the strict Literal loader evaluates `v == d`, the lax one `d == v` -/
+def vdup : Val := .dict [(.int 1, .int 2), (.int 1, .int 2)]
+def ddup : Val := .dict [(.int 1, .int 2), (.int 3, .int 4)]
+
+example : load Wid ⟨.disable, true⟩ 1 (.literal [vdup, .int 1]) ddup = .ok ddup := by
+  simp [load, loadLiteral, boolSensitive, typedMem, vdup, ddup, Val.tag, Val.pyEq, Val.dictSub, Val.hasKV]
+example : load Wid ⟨.disable, false⟩ 1 (.literal [vdup, .int 1]) ddup =
+    .err (LErr.leaf "BadVariantLoadError" ddup) := by
+  simp [load, loadLiteral, vdup, ddup, Val.memOf, Val.pyEq, Val.dictSub, Val.hasKV]
 
 end examples
 
